@@ -2,7 +2,7 @@
 import rpcflow
 
 SUB = "c16"
-MODULES = ["Mtv.Props.C16", "Mtv.Props.ClientImpl", "Mtv.Props.C16Life"]
+MODULES = ["Mtv.Props.C16", "Mtv.Props.ClientImpl", "Mtv.Props.C16Life", "Mtv.Props.C16Frame"]
 THEOREMS = [
     "Mtv.Client.recv_total",
     "Mtv.Client.loop_state_sane",
@@ -30,8 +30,17 @@ THEOREMS = [
     "Mtv.Client.Life.probe_after_redial",
     "Mtv.Client.Life.probe_completes_after_reconnect",
     "Mtv.Client.Life.failed_redial_gives_up",
+    # transport-level frames that are no sealed message (Mtv/Client/TransportFrame.lean, Props/C16Frame.lean)
+    "Mtv.Client.Frame.short_frame_is_junk",
+    "Mtv.Client.Frame.four_bytes_is_a_code",
+    "Mtv.Client.Frame.other_key_is_junk",
+    "Mtv.Client.Frame.transport_frame_is_harmless",
+    "Mtv.Client.Frame.transport_frame_needs_a_reader",
+    "Mtv.Client.Frame.transport_frames_are_harmless",
+    "Mtv.Client.Frame.runJ_erase",
+    "Mtv.Client.Frame.transport_frames_keep_invariants",
 ]
-RULE = ('hostile histories on the real client: pong, msgs_ack, update objects, unknown constructor, truncated body, empty container, bad_msg_notification (stray and for a pending request), rpc_result for unknown and already answered ids, new_session_created, containers of these, orderly connection close at random points; PLAIN-TEXT frames (auth_key_id 0, msg_id, length, body: the envelope of the key exchange, which needs no key to write) arriving on the keyed session (plan step ~<item>): new_session_created and bad_server_salt with salts of their own, rpc_result / rpc_error / bad_msg_notification naming a pending request (a value the server never sends, and the very value it will send), updates, service traffic, unknown and truncated bodies, containers of these, nested, gzip_packed, damaged ones (client-parity msg_id, wrong length), alone, between ordinary messages, with calls pending, straight after a reconnect, forty in a row - no caller may return what such a frame carried, its salt is neither stored nor used, no request is repeated because of it, the handler of the application (registered by the harness) is not shown its content and is shown every update of the server exactly once, nothing in it is acknowledged, one warning per frame, the pending calls get the answers of the server and the probe completes; writes of the client that fail (injected: an acknowledgement, a request of a caller; real: the server sends several content-related messages and drops the connection at once, the receive loop held so that no acknowledgement is out yet) followed by more traffic that needs acknowledging and by further requests; connections that end inside a frame (1..61 bytes of it delivered: inside the length prefix, at its end, inside the packet) or with a reset, the cut message repeated on the new connection; and, each in a process of its own started by the generator so that they run concurrently with everything else, a connection older than the one-minute keepalive period of the library (the keepalive ping answered by a bare pong, then an orderly close / a Reconnect of the application) and a server that stays silent beyond the 65 s read timeout - after each the client must be back on a connection made with the same key and the probe must complete; well-formed notifications whose enumerated field is outside the list of the specification (bad_msg_notification with every error_code 0..255, negative and large codes, for unknown ids, for a pending request, for one of the acknowledgements the client wrote; bad_server_salt with other codes than 48); a probe that has encoded its request and waits for the write lock (a slow write in progress, produced through the write hook) while the receive loop acknowledges content-related messages, with GOMAXPROCS 1 and unchanged (the peer checks every request and msgs_ack byte for byte); every service message a server may send that is a request to the client or an informational message (msgs_state_req, msg_resend_req, msg_resend_ans_req, msgs_state_info, msgs_all_info, msg_detailed_info, msg_new_detailed_info, future_salts, destroy_session_ok/none, rpc_answer_unknown/dropped_running/dropped, ping), well-formed, with empty and non-empty id lists, alone, with a request pending, in a container, gzip_packed (plan item z(<item>)), as content-related and as not content-related message; service messages whose 32-bit count / length fields carry values a decoder may read as signed (container count, byte length of a container member, vector counts of msgs_ack, msgs_state_req, msg_resend_req, msgs_all_info, future_salts at 2^31-1, 2^31, 2^32-1, their neighbours and random values, with nothing, one and two elements behind them; alone, in containers, gzip_packed, nested); server msg_ids anywhere in the unsigned 64-bit range — each followed by a probe request of a fresh caller that must return its own result; the process must survive (a panic in the receive goroutine kills the harness process and is attributed to the scenario), no unencrypted frame may appear after a reconnect. distinct = distinct scenarios')
+RULE = ('hostile histories on the real client: pong, msgs_ack, update objects, unknown constructor, truncated body, empty container, bad_msg_notification (stray and for a pending request), rpc_result for unknown and already answered ids, new_session_created, containers of these, orderly connection close at random points; PLAIN-TEXT frames (auth_key_id 0, msg_id, length, body: the envelope of the key exchange, which needs no key to write) arriving on the keyed session (plan step ~<item>): new_session_created and bad_server_salt with salts of their own, rpc_result / rpc_error / bad_msg_notification naming a pending request (a value the server never sends, and the very value it will send), updates, service traffic, unknown and truncated bodies, containers of these, nested, gzip_packed, damaged ones (client-parity msg_id, wrong length), alone, between ordinary messages, with calls pending, straight after a reconnect, forty in a row - no caller may return what such a frame carried, its salt is neither stored nor used, no request is repeated because of it, the handler of the application (registered by the harness) is not shown its content and is shown every update of the server exactly once, nothing in it is acknowledged, one warning per frame, the pending calls get the answers of the server and the probe completes; writes of the client that fail (injected: an acknowledgement, a request of a caller; real: the server sends several content-related messages and drops the connection at once, the receive loop held so that no acknowledgement is out yet) followed by more traffic that needs acknowledging and by further requests; connections that end inside a frame (1..61 bytes of it delivered: inside the length prefix, at its end, inside the packet) or with a reset, the cut message repeated on the new connection; and, each in a process of its own started by the generator so that they run concurrently with everything else, a connection older than the one-minute keepalive period of the library (the keepalive ping answered by a bare pong, then an orderly close / a Reconnect of the application) and a server that stays silent beyond the 65 s read timeout - after each the client must be back on a connection made with the same key and the probe must complete; frames of the transport level that are no sealed message (plan step !…, event J: the four-byte error code -404 / -429 / -444 / 404 / 0 / -1 / int32 extremes and random values; frames of 0..3 and 5..7 bytes; frames of 8..23 bytes under the auth_key_id of the session, under another one, under 0) alone, forty in a row, with a request in flight, with the probe in flight, straight after a close / Reconnect, mixed with ordinary messages - one warning each, no connection replaced that nobody ended, the request in flight gets the answer of the server, the probe completes; well-formed notifications whose enumerated field is outside the list of the specification (bad_msg_notification with every error_code 0..255, negative and large codes, for unknown ids, for a pending request, for one of the acknowledgements the client wrote; bad_server_salt with other codes than 48); a probe that has encoded its request and waits for the write lock (a slow write in progress, produced through the write hook) while the receive loop acknowledges content-related messages, with GOMAXPROCS 1 and unchanged (the peer checks every request and msgs_ack byte for byte); every service message a server may send that is a request to the client or an informational message (msgs_state_req, msg_resend_req, msg_resend_ans_req, msgs_state_info, msgs_all_info, msg_detailed_info, msg_new_detailed_info, future_salts, destroy_session_ok/none, rpc_answer_unknown/dropped_running/dropped, ping), well-formed, with empty and non-empty id lists, alone, with a request pending, in a container, gzip_packed (plan item z(<item>)), as content-related and as not content-related message; service messages whose 32-bit count / length fields carry values a decoder may read as signed (container count, byte length of a container member, vector counts of msgs_ack, msgs_state_req, msg_resend_req, msgs_all_info, future_salts at 2^31-1, 2^31, 2^32-1, their neighbours and random values, with nothing, one and two elements behind them; alone, in containers, gzip_packed, nested); server msg_ids anywhere in the unsigned 64-bit range — each followed by a probe request of a fresh caller that must return its own result; the process must survive (a panic in the receive goroutine kills the harness process and is attributed to the scenario), no unencrypted frame may appear after a reconnect. distinct = distinct scenarios')
 
 
 def run(ctx):
